@@ -29,6 +29,7 @@ fn main() {
     let mut out = std::io::BufWriter::new(out.lock());
     let mut n = 0usize;
     let mut failed = 0usize;
+    let mut skipped = 0usize;
     for (ln, line) in std::io::BufReader::new(f).lines().enumerate() {
         if ln < from {
             continue;
@@ -51,6 +52,21 @@ fn main() {
                     e => panic!("unknown elem {e}"),
                 }
             }
+            "acc" => {
+                let o = match elem.as_str() {
+                    "elem" => tdverif::acc::run_case::<Elem>(&case),
+                    "u32" => tdverif::acc::run_case::<K32>(&case),
+                    "zst" => tdverif::acc::run_case::<Zst>(&case),
+                    e => panic!("unknown elem {e}"),
+                };
+                match o {
+                    tdverif::acc::Outcome::Skipped => {
+                        skipped += 1;
+                        continue;
+                    }
+                    tdverif::acc::Outcome::Done(f) => f,
+                }
+            }
             f => panic!("unknown family {f}"),
         };
         n += 1;
@@ -60,6 +76,6 @@ fn main() {
             writeln!(out, "F {}", serde_json::json!({"case": ln, "elem": elem, "cap": cap, "fails": fj})).unwrap();
         }
     }
-    writeln!(out, "DONE {n} {failed}").unwrap();
+    writeln!(out, "DONE {n} {failed} {skipped}").unwrap();
     out.flush().unwrap();
 }
